@@ -129,6 +129,7 @@ class PathTable:
         return Leaf(list(l.conds), dict(l.env), list(l.events), l.exit, l.value, dict(l.snaps), dict(l.store_at))
 
     def _stmt(self, st: ast.stmt, l: Leaf, depth: int) -> List[Leaf]:
+        self.cur_leaf = l           # hooks may consult the path so far (e.g. to tag calls with a state epoch)
         T = self._T(l.env, depth)
         if isinstance(st, ast.Assign) and len(st.targets) == 1:
             t = st.targets[0]
